@@ -13,6 +13,7 @@ import (
 	"fmt"
 	"math/rand"
 	"os"
+	"os/exec"
 	"path/filepath"
 	"sort"
 	"strconv"
@@ -86,6 +87,32 @@ func (c *Ctx) Violate(what, input string) {
 	if len(c.Violations) < 20 {
 		c.Violations = append(c.Violations, Violation{what, input})
 	}
+}
+
+// Lean runs the model driver (path in $TMV) on the given case lines (without the property prefix)
+// and returns its answers; used when a generator needs a model verdict to classify its own cases.
+func (c *Ctx) Lean(lines []string) []string {
+	tmv := os.Getenv("TMV")
+	res := make([]string, len(lines))
+	if tmv == "" || len(lines) == 0 {
+		return res
+	}
+	var in strings.Builder
+	for _, l := range lines {
+		fmt.Fprintf(&in, "%s %s\n", c.Prop, l)
+	}
+	cmd := exec.Command(tmv)
+	cmd.Stdin = strings.NewReader(in.String())
+	out, err := cmd.Output()
+	if err != nil {
+		return res
+	}
+	for i, l := range strings.Split(strings.TrimRight(string(out), "\n"), "\n") {
+		if i < len(res) {
+			res[i] = l
+		}
+	}
+	return res
 }
 
 type propFn func(c *Ctx)
